@@ -40,6 +40,11 @@ def run(ctx):
     ctx.guard(rule_g, ctx, ix)
     ctx.guard(rule_h, ctx, ix)
     ctx.guard(rule_i, ctx, ix)
+    # statistics are taken on sub-arrays (a view, a selection, the chunk loop): the codes of a categorical sub-array must be those
+    # of the full array
+    from ..report import BorrowedCtx
+    from .C04 import rule_d as _view_categories
+    ctx.guard(_view_categories, BorrowedCtx(ctx, {'C04.d': 'C10.j'}), ix)
 
 
 def _table(ix, mod, name):
